@@ -411,28 +411,44 @@ class C16(Prop):
         return out
 
     # ------------------------------------------------------------------ comparison
+    DIAG = ("rf=", "all=", "allcols=", "samp=", "nfrag=")
+
     def compare(self, ctx, case, impl_out, model_out):
-        """exact, except that a weight vector may differ from the model's in rounding only (a change of summation
-        order is not a change of the property): bit-equal or within 1e-9 relative, everything else on the line exact"""
+        """exact, except for freedoms the property leaves open (each is counted in the evidence, and the monitors judge
+        the implementation's own output in every such case):
+          * a weight vector may differ from the model's in rounding only (bit-equal or within 1e-9 relative);
+          * the diagnostic fields of ESL_MSAWEIGHT_DAT (how the consensus was found, fragment count) are not compared,
+            the consensus columns themselves are;
+          * eslMSA_HASWGTS may be raised where the model leaves it down (single-sequence early return);
+          * cluster numbering, order among equal sort keys, the kept set of the filter (see _tolerated)."""
+        def bump(k): ctx.stats[k] = ctx.stats.get(k, 0) + 1
         n = max(len(impl_out), len(model_out))
         for i in range(n):
             a = impl_out[i] if i < len(impl_out) else "<missing>"
             b = model_out[i] if i < len(model_out) else "<missing>"
             if a == b: continue
-            if " w=" in a and " w=" in b:
+            op = case["ops"][i].split()[0] if i < len(case["ops"]) else ""
+            if " w=" in a and " w=" in b and a.startswith("ok ") and b.startswith("ok "):
                 pa, wa = a.rsplit(" w=", 1); pb, wb = b.rsplit(" w=", 1)
+                fa = [x for x in pa.split() if not x.startswith(self.DIAG)]
+                fb = [x for x in pb.split() if not x.startswith(self.DIAG)]
+                notes = []
+                if fa != fb and pa != pb and [x for x in pa.split() if x.startswith(self.DIAG)] != [x for x in pb.split() if x.startswith(self.DIAG)]:
+                    notes.append("pbadv_diagnostics_differ")
+                if fa != fb and "hw=1" in fa and "hw=0" in fb and [x for x in fa if x != "hw=1"] == [x for x in fb if x != "hw=0"]:
+                    notes.append("haswgts_raised_where_model_leaves_it_down"); fa = fb
                 try:
                     xa = [undbits(x) for x in wa.split(",")]; xb = [undbits(x) for x in wb.split(",")]
                 except ValueError:
                     return (i, a, b)
-                if pa == pb and len(xa) == len(xb) and all(close(x, y) for x, y in zip(xa, xb)):
-                    ctx.stats["weights_equal_up_to_rounding_only"] = ctx.stats.get("weights_equal_up_to_rounding_only", 0) + 1
+                if fa == fb and len(xa) == len(xb) and all(close(x, y) for x, y in zip(xa, xb)):
+                    if wa != wb: notes.append("weights_equal_up_to_rounding_only")
+                    for k in notes: bump(k)
                     continue
-            # freedoms the property leaves open (the monitors judge the implementation's own output in each case):
-            op = case["ops"][i].split()[0] if i < len(case["ops"]) else ""
+                return (i, a, b)
             tol = self._tolerated(op, a, b)
             if tol:
-                ctx.stats[tol] = ctx.stats.get(tol, 0) + 1
+                bump(tol)
                 continue
             return (i, a, b)
         return None
@@ -582,6 +598,7 @@ class C16(Prop):
             if w[0] in ("pb", "pbadv", "blosum", "gsc"):
                 wt = [undbits(x) for x in f["w"].split(",")]
                 if len(wt) != n: return Failure("monitor", "%s returned %d weights for %d sequences" % (w[0], len(wt), n))
+                if n >= 2 and f.get("hw") != "1": return Failure("monitor", "%s did not raise eslMSA_HASWGTS" % w[0])
                 if any(not (x >= 0.0) for x in wt): return Failure("monitor", "%s weight is negative or NaN: %r" % (w[0], [x for x in wt if not x >= 0][:3]))
                 if abs(sum(Fraction(x) for x in wt) - n) > Fraction(n, 10**6): return Failure("monitor", "%s weights sum to %r, not %d" % (w[0], float(sum(wt)), n))
                 # identical rows => identical weights
@@ -606,11 +623,13 @@ class C16(Prop):
                     for i in range(n):
                         e = Fraction(n, ncomp * comp.count(comp[i]))
                         if not close(wt[i], float(e)): return Failure("monitor", "BLOSUM weight %d is %r, expected N/(#clusters*size) = %r" % (i, wt[i], float(e)))
+                        st["L0_max_abs_dev_blosum"] = max(st.get("L0_max_abs_dev_blosum", 0.0), abs(float(Fraction(wt[i]) - e)))
                 if w[0] in ("pb", "pbadv"):
                     e = self._pb_expected(aln, kv if w[0] == "pbadv" else {}, f if w[0] == "pbadv" else None)
                     if isinstance(e, str): return Failure("monitor", e)
                     for i in range(n):
                         if not close(wt[i], float(e[i])): return Failure("monitor", "PB weight %d is %r, the 1/(r*c) formula gives %r" % (i, wt[i], float(e[i])))
+                        st["L0_max_abs_dev_pb"] = max(st.get("L0_max_abs_dev_pb", 0.0), abs(float(Fraction(wt[i]) - e[i])))
                 cur["res"][op] = wt
                 cnt(w[0]); continue
         # permutation equivariance between the two blocks of the case
